@@ -4,6 +4,8 @@ import (
 	"bytes"
 	"encoding/hex"
 	"fmt"
+	"github.com/jcmturner/gokrb5/v8/client"
+	"verif/harness/internal/kdc"
 
 	"github.com/jcmturner/gofork/encoding/asn1"
 	"github.com/jcmturner/gokrb5/v8/crypto"
@@ -360,6 +362,32 @@ func c08(c *Ctx) {
 						map[string]interface{}{"pair": pi, "req": req, "subset": mask, "perm": perm})
 				}
 			}
+		}
+	}
+	// ---- (5c) the same through the client: a KDC demanding pre-authentication whose e-data carries ETYPE-INFO2 for
+	// the etype it chose, ETYPE-INFO naming another etype first, and PW-SALT, in three orders.  The timestamp the
+	// client sends must be under the ETYPE-INFO2 key (the simulated KDC refuses anything else). ----
+	{
+		realm := "TEST.GOKRB5"
+		k := kdc.New(realm)
+		k.AddPrincipal([]string{"testuser1"}, "passwordvalue", 2)
+		k.RequirePreauth, k.ExtraHints = true, true
+		if err := k.Serve(); err == nil {
+			for _, et := range allEtypes {
+				for order := 0; order < 3; order++ {
+					k.HintOrder = order
+					cfg := testConfig(realm, []string{k.Addr}, []int32{et})
+					cl := client.NewWithPassword("testuser1", realm, "passwordvalue", cfg, client.DisablePAFXFAST(true))
+					var err error
+					p, _ := guard(func() { err = cl.Login() })
+					c.Check(!p && err == nil, "login succeeds whatever the order of the pre-authentication hints (the key is the ETYPE-INFO2 one)", "login-hint-order", fmt.Sprintf("etype %d order %d: %v", et, order, err), map[string]interface{}{"etype": et, "order": order})
+					cl.Destroy()
+					c.Count("login-hint-order")
+				}
+			}
+			k.Close()
+		} else {
+			c.Notes = append(c.Notes, "simulated KDC did not start: "+err.Error())
 		}
 	}
 	// empty ETYPE-INFO / ETYPE-INFO2 sequences
